@@ -62,6 +62,81 @@ func unpack48(t uint64) []int {
 	return out
 }
 
+// type codes of bitstream format 6 (KzNames.tla: TCode)
+var codeName = map[int]string{1: "BWT", 2: "BWTS", 3: "LZ", 5: "RLT", 6: "ZRLT", 7: "MTFT", 8: "RANK", 9: "EXE", 10: "TEXT", 11: "ROLZ", 12: "ROLZX",
+	13: "SRT", 14: "LZP", 15: "MM", 16: "LZX", 17: "UTF", 18: "PACK", 19: "DNA"}
+
+// stagewise undoes a stream written with entropy NONE stage by stage, using for every stage a codec built from the numeric type found
+// in the header ALONE (fresh context, nothing inherited from the other stages), honouring the skip flags of each block: it succeeds
+// iff every type in the header names the codec variant that really encoded that stage. Returns "ok", "n/a" or a description.
+func stagewise(stream, data []byte) (res string) {
+	defer func() {
+		if p := recover(); p != nil {
+			res = fmt.Sprint("stage panics: ", p)
+		}
+	}()
+	st, err := kzfmt.Parse(stream, false, 0)
+	if err != nil || st.H.Entropy != 0 {
+		return "n/a"
+	}
+	var stages []string
+	for _, c := range unpack48(st.H.Transform) {
+		if c != 0 {
+			n, ok := codeName[c]
+			if !ok {
+				return "n/a"
+			}
+			stages = append(stages, n)
+		}
+	}
+	var out []byte
+	for _, blk := range st.Blocks {
+		cur := make([]byte, blk.PreLen)
+		for i := range cur {
+			cur[i] = byte(kzfmt.GetBits(stream, blk.OffEntropy+8*i, 8))
+		}
+		if blk.Mode&0x80 == 0 {
+			for i := len(stages) - 1; i >= 0; i-- {
+				if blk.SkipFlags&(1<<(7-uint(i))) != 0 {
+					continue
+				}
+				inv := func(name string) ([]byte, error) {
+					ctx := baseCtx("NONE", 1, st.H.BlockSize)
+					ctx["size"] = uint(len(cur))
+					t, e := newSingle(name, &ctx)
+					if e != nil {
+						return nil, e
+					}
+					dst := make([]byte, st.H.BlockSize+1024)
+					_, n, e := t.Inverse(append([]byte(nil), cur...), dst)
+					if e != nil {
+						return nil, e
+					}
+					return dst[:n], nil
+				}
+				nxt, e := inv(stages[i])
+				if e != nil || len(nxt) == 0 {
+					// which variant did encode it? (diagnosis only)
+					for _, alt := range []string{"ROLZX", "ROLZ", "LZ", "LZX", "LZP", "MTFT", "RANK", "PACK", "DNA", "BWT", "BWTS"} {
+						if alt != stages[i] {
+							if a, e2 := inv(alt); e2 == nil && len(a) > 0 {
+								return fmt.Sprintf("block %d stage %d: header says %s, the data were encoded by %s", blk.ID, i, stages[i], alt)
+							}
+						}
+					}
+					return fmt.Sprintf("block %d stage %d: header says %s, its inverse fails (%v)", blk.ID, i, stages[i], e)
+				}
+				cur = nxt
+			}
+		}
+		out = append(out, cur...)
+	}
+	if string(out) != string(data) {
+		return "header types do not reproduce the data"
+	}
+	return "ok"
+}
+
 func runNameCase(c nameCase) tr.Ev {
 	switch c.Kind {
 	case "t":
@@ -98,7 +173,7 @@ func runNameCase(c nameCase) tr.Ev {
 		}
 		w := kz.Cfg{Transform: sp, Entropy: esp, Block: B, Jobs: 1, Ck: 32, Hint: -1, Headerless: c.Hless}
 		ev := tr.Ev{"ev": "STREAM", "key": c.Key, "canon": c.Canon, "names": c.Names, "ename": c.EName, "spelled": sp + "&" + esp,
-			"dig": "", "hdrT": []int{}, "hdrE": -1, "rt": "fail"}
+			"dig": "", "hdrT": []int{}, "hdrE": -1, "rt": "fail", "stagewise": "n/a"}
 		stream, err := kz.Compress(data, w, nil, nil)
 		if err != nil {
 			ev["rt"] = "compress: " + errText(err)
@@ -132,6 +207,9 @@ func runNameCase(c nameCase) tr.Ev {
 			ev["rt"] = "decode: different bytes"
 		} else {
 			ev["rt"] = "ok"
+			if !c.Hless && strings.ToUpper(esp) == "NONE" {
+				ev["stagewise"] = stagewise(stream, data)
+			}
 		}
 		return ev
 	}
@@ -174,7 +252,7 @@ func cmdNames(args []string) int {
 			defer func() {
 				if p := recover(); p != nil {
 					evs[i] = tr.Ev{"ev": "STREAM", "key": cases[i].Key, "canon": cases[i].Canon, "names": cases[i].Names, "ename": cases[i].EName,
-						"dig": "", "hdrT": []int{}, "hdrE": -1, "rt": fmt.Sprint("panic: ", p)}
+						"dig": "", "hdrT": []int{}, "hdrE": -1, "rt": fmt.Sprint("panic: ", p), "stagewise": "n/a"}
 				}
 			}()
 			evs[i] = runNameCase(cases[i])
